@@ -94,6 +94,13 @@ def markFaces (n : Nat) (mark other : Val) : P Val (List Nat) := do
   let marked ← markLoop n other (2 * n + 2) q [0]
   pure (marked.filter (· ≠ 0))
 
+/-- `if cmap.contains_attribute::<VertexAnchor>() { force_read_attribute(vertex_id(dart_id)) } else { None }` -/
+def savedAnchor (n d : Nat) (hasAnchors : Bool) : P Val (Option Val) :=
+  if hasAnchors then do
+    let vid' ← vertexId2 n d
+    rA sVA vid'
+  else pure none
+
 /-- first statement of `delete_darts`: `(dart, vertex, anchor)` of every dart tagged `kept` -/
 def savedBoundary (n : Nat) (kept : Val) (hasAnchors : Bool) : List Nat → P Val (List (Nat × Val × Option Val))
   | [] => pure []
@@ -105,10 +112,7 @@ def savedBoundary (n : Nat) (kept : Val) (hasAnchors : Bool) : List Nat → P Va
         match v with
         | none => Prog.panic   -- `.expect("E: found a topological vertex with no associated coordinates")`
         | some v => do
-          let anc ← if hasAnchors then do
-              let vid' ← vertexId2 n d
-              rA sVA vid'
-            else pure none
+          let anc ← savedAnchor n d hasAnchors
           let rest ← savedBoundary n kept hasAnchors ds
           pure ((d, v, anc) :: rest)
       else savedBoundary n kept hasAnchors ds
